@@ -2,6 +2,7 @@ package varutil
 
 import (
 	"math/rand"
+	"sync"
 	"time"
 )
 
@@ -30,15 +31,25 @@ const (
 
 var (
 	src = rand.NewSource(time.Now().UnixNano())
+	// srcMU guards src: a rand.Source is not safe for concurrent use
+	srcMU sync.Mutex
 )
+
+// randInt63 returns the next value of the shared source
+func randInt63() (v int64) {
+	srcMU.Lock()
+	v = src.Int63()
+	srcMU.Unlock()
+	return v
+}
 
 // RandString create new random string
 func RandString(n int, pool string) string {
 	b := make([]byte, n)
 	// A src.Int63() generates 63 random bits, enough for letterIdxMax characters!
-	for i, cache, remain := n-1, src.Int63(), letterIdxMax; i >= 0; {
+	for i, cache, remain := n-1, randInt63(), letterIdxMax; i >= 0; {
 		if remain == 0 {
-			cache, remain = src.Int63(), letterIdxMax
+			cache, remain = randInt63(), letterIdxMax
 		}
 		if idx := int(cache & letterIdxMask); idx < len(pool) {
 			b[i] = pool[idx]
